@@ -50,6 +50,7 @@ func runC18(c *Ctx) {
 	// the in-memory entry point (the installed Spec validator) validates the object itself
 	c17Loaders(c, "C18.2")
 
+	c18YAMLImage(c)
 	sf := loadSchemaFiles(c, "C18.1")
 	specT := c.U.NamedType("specs", "Spec")
 	if sf == nil || specT == nil {
@@ -399,4 +400,50 @@ func c18WrittenJSON(c *Ctx) {
 		}
 		r.Check("C18.3", "post-processor:none", okPlain, c.U.Pos(w.Pos()), "the output of encoding/json.Marshal is written as it is")
 	}
+}
+
+// c18YAMLImage: the YAML files the library writes carry the member names of the yaml tags,
+// the schema names members by their JSON names, case-sensitively: for every field reachable
+// from Spec the two tags must be the same string (the library's own reader folds case, so
+// its round trip would not notice a difference).
+func c18YAMLImage(c *Ctx) {
+	specT := c.U.NamedType("specs", "Spec")
+	if specT == nil {
+		return
+	}
+	seen := map[string]bool{}
+	n, bad := 0, ""
+	var visit func(t types.Type)
+	visit = func(t types.Type) {
+		switch u := t.Underlying().(type) {
+		case *types.Pointer:
+			visit(u.Elem())
+		case *types.Slice:
+			visit(u.Elem())
+		case *types.Map:
+			visit(u.Elem())
+		case *types.Struct:
+			if nt, ok := t.(*types.Named); ok {
+				if seen[nt.Obj().Name()] {
+					return
+				}
+				seen[nt.Obj().Name()] = true
+			}
+			for i := 0; i < u.NumFields(); i++ {
+				f := u.Field(i)
+				if !f.Exported() {
+					continue
+				}
+				n++
+				jn, _ := tagName(u.Tag(i), "json", "")
+				yn, _ := tagName(u.Tag(i), "yaml", "")
+				if jn != yn {
+					bad += fmt.Sprintf(" %s: json %q, yaml %q;", f.Name(), jn, yn)
+				}
+				visit(f.Type())
+			}
+		}
+	}
+	visit(specT)
+	c.R.Check("C18.1", "yaml-file-member-names", bad == "" && n >= 30, c.U.Pos(specT.Obj().Pos()), fmt.Sprintf("a written .yaml file names every member exactly as the schema does (yaml tag == json tag for %d fields):%s", n, bad))
 }
